@@ -457,7 +457,9 @@ def run(rec, cfg):
             rec.truncated = True
             break
         for kn, f in fac.items():
-            drive_tree(rec, W9.build(s, f), kn, rng, full_stops=W9.count(s) <= 8 or kn == "expr")
+            from ..workloads import copies as _CP
+
+            drive_tree(rec, _CP.routed(W9.build(s, f), "tree", every=9), kn, rng, full_stops=W9.count(s) <= 8 or kn == "expr")
         rec.arm("shapes:exhaustive")
         if idx % 97 == 0:
             rec.sample({"shape": W9.shape_str(s), "nodes": W9.count(s), "orders": 3, "stop_positions": "all"})
